@@ -292,7 +292,8 @@ func (e *env) open(p *program) ([]io.ReadCloser, error) {
 		ranges = append(ranges, storage.ByteRange{Start: &s, End: &en})
 	}
 	if p.Fnerr {
-		s, en := int64(len(e.content)+6), int64(len(e.content)+7)
+		// a malformed range (first byte after last byte) makes getObjectInTx fail inside the transaction
+		s, en := int64(7), int64(3)
 		ranges = append(ranges, storage.ByteRange{Start: &s, End: &en})
 	}
 	_, rs, err := e.built.Storage.GetObject(ctx, e.bucket, e.key, ranges, nil)
@@ -365,6 +366,12 @@ func (e *env) runProgram(w *vtrace.Writer, p *program) {
 	w.Emit(map[string]any{"t": "reset", "prog": p.Prog, "mode": p.Mode, "k": p.K, "fnerr": p.Fnerr,
 		"ranges": p.Ranges, "stepbytes": p.StepBytes, "partsize": p.PartSize, "nparts": p.NParts,
 		"openerr": openerr, "rb": rb(), "inuse": e.inUse(p.Mode), "detail": fmt.Sprint(err)})
+	if err == nil && p.Fnerr {
+		// the call was expected to fail and did not (logged above): do not leak what it returned
+		for _, r := range readers {
+			r.Close()
+		}
+	}
 	if err != nil || p.Fnerr {
 		readers = nil
 	}
